@@ -7,6 +7,7 @@
      SR <struct> <desc> <cols> <vals>     | ok <bytes> [rt <deser outcome>]  |  err <E>
      NV <struct> <outer perm> <inner perm> <flags> <vals> | ok <bytes> rt ok <vals>   (nested derived structs)
      PR <struct> <desc> <cols> <vals>     | as SR, but the ColumnSpecs are decoded by the driver from a PREPARED response
+     PT <struct> <desc> <cols> <vals>     | as PR with the last column in a second table (per-column table specs)
      DR <struct> <desc> <cols> <cells>    | ok <vals> | tck <E> | des <E> | panic
    desc   := flags '/' [field {';' field}]          flags: o(rdered) x(forbid excess) n(o name checks) -
              S = the struct derives Serialize* only (no round trip part expected)
@@ -222,7 +223,15 @@ let ser_agrees frame dc impl_ser = match dc, split_on ' ' impl_ser with
   | Reject, ("err" :: _) -> true
   | _ -> false
 
-let verdict case impl =
+let known_class = "ordered-allow-missing-present-but-dropped"
+
+let rec verdict case impl =
+  match impl with
+  | "error" :: _ -> "error harness " ^ String.concat "_" impl        (* runner trouble is never a verdict on the property *)
+  | _ when List.mem "panic" impl && (match case with k :: _ -> k <> "XD" | [] -> false) ->
+    "viol impl-panicked"                                              (* a panic is never `ok`, whatever the model says *)
+  | _ -> verdict_case case impl
+and verdict_case case impl =
   match case with
   | ["SV"; _; desc; dbt; vals] ->
     let vals = ref (cells_of vals) in
@@ -231,6 +240,12 @@ let verdict case impl =
     let t = dbtype_of dbt in
     let (impl_ser, impl_rt) = split_rt impl in
     let m = ser_str (gen_ser_value d t) in
+    (* known finding: inputs of the class are judged by the DOCUMENTED (strict) table even when the
+       model, which reproduces the code, agrees with the implementation *)
+    if (match t with TUdt db -> ordered_am_drops d db | TNative _ -> false) &&
+       (match split_on ' ' impl_ser with "ok" :: _ -> true | _ -> false)
+    then "viol class=" ^ known_class ^ " doc=reject model=" ^ m
+    else
     if m <> impl_ser then begin
       (* the property on the implementation's own output: the documented outcome *)
       let doc = match t with TNative _ -> Some Reject | TUdt db -> doc_ser_value d db in
@@ -246,7 +261,8 @@ let verdict case impl =
           (* round trip on the implementation's own output: value -> bytes -> value *)
           let rt_law vs =
             if d.vd_ordered then
-              List.length vs = List.length d.vd_fields && List.for_all2 rt_okb d.vd_fields vs
+              (* the proved table: C16_ordered_am_deser_value / C16_snc_deser_value *)
+              (match doc_de_value d db cells with Some dc -> outcome_agrees (Some vs) dc | None -> true)
             else cells_eqb vs (List.map (back_value (List.map fst db)) d.vd_fields) in
           match obs_de rt with
           | None -> "viol roundtrip impl-panicked model=" ^ mrt
@@ -269,8 +285,11 @@ let verdict case impl =
     let db = match t with TUdt db -> db | TNative _ -> [] in
     let m = de_str (gen_typeck_value d t) (fun () -> gen_deser_value d db cells) in
     let doc = match t with TNative _ -> Some Reject | TUdt db -> doc_de_value d db cells in
-    verdict_de ~model:m ~impl:(String.concat " " impl) ~doc
-  | [("SR" | "PR"); _; desc; cols; vals] ->
+    if (match t with TUdt db -> ordered_am_drops d db | TNative _ -> false) &&
+       (match impl with "ok" :: _ -> true | _ -> false)
+    then "viol class=" ^ known_class ^ " doc=reject model=" ^ m
+    else verdict_de ~model:m ~impl:(String.concat " " impl) ~doc
+  | [("SR" | "PR" | "PT"); _; desc; cols; vals] ->
     (* PR = SR on column specs the driver decoded itself from an encoded PREPARED response *)
     let vals = ref (cells_of vals) in
     let d = rdesc_of (parse_desc_text desc) vals in
